@@ -14,7 +14,7 @@ import (
 func (c *c10) Cases(tier string, seed int64) []core.Case {
 	var cs []core.Case
 	r := core.Rng("C10", tier, seed)
-	n := map[string]int{"quick": 200, "thorough": 2500}[tier]
+	n := map[string]int{"quick": 200, "thorough": 10000}[tier]
 	for i := 0; i < n; i++ {
 		cs = append(cs, core.MkCase(fmt.Sprintf("writer-%d", i), p1Params{r.Int63(), "writer"}))
 	}
@@ -22,7 +22,7 @@ func (c *c10) Cases(tier string, seed int64) []core.Case {
 	for total := 2; total <= 6; total++ {
 		cs = append(cs, core.MkCase(fmt.Sprintf("reader-placements-%d", total), p1Params{r.Int63(), fmt.Sprintf("reader-placements:%d", total)}))
 	}
-	m := map[string]int{"quick": 60, "thorough": 800}[tier]
+	m := map[string]int{"quick": 60, "thorough": 4000}[tier]
 	for i := 0; i < m; i++ {
 		cs = append(cs, core.MkCase(fmt.Sprintf("reader-rnd-%d", i), p1Params{r.Int63(), "reader-random"}))
 	}
